@@ -12,7 +12,7 @@
 //	race    scans racing with 1-4 client goroutines; verdict from a logical clock
 //	cancel  context cancelled at every k-th visit and every k-th RemoveMessage
 //	start   Start with period 0; Start with a positive period cancelled before its first scan
-//	loop    (thorough) the run loop performs a real scan after its one-minute delay, then stops
+//	loop    the run loop performs a real scan after its one-minute delay, then is cancelled between scans or mid-scan
 package c12
 
 import (
@@ -44,7 +44,7 @@ func init() {
 			"executed at the k-th visited mailbox and, on file, between VisitMailboxes directory levels), race (1-4 client goroutines deliver young/old, " +
 			"remove, purge whole mailboxes while 1-3 scans run; verdict by logical clock, then one quiet scan and exact comparison), cancel (context " +
 			"cancelled at every k-th visit / k-th RemoveMessage, RetentionSleep 20ms), start (period 0; positive period cancelled before first scan), " +
-			"loop (thorough: real run-loop scan after the one-minute delay). Non-trivial: a scan that had >=1 expired and >=1 unexpired message " +
+			"loop (real run-loop scan after the one-minute delay, cancelled between scans or while the scan is parked mid-way). Non-trivial: a scan that had >=1 expired and >=1 unexpired message " +
 			"(distinct by back end, period class, size buckets, stream-specific step).",
 		Assumptions: []string{
 			"message dates are >= 10 minutes away from the cut-off, and a case finishes within 10 minutes of reading the clock, so time.Now() inside DoScan cannot change the expected result",
@@ -64,8 +64,11 @@ func init() {
 				"start_zero_returned": 2, "start_cancel_returned": 2,
 				"distinct_nontrivial": 60,
 			}
+			m["loop_scans_observed"] = 1
+			m["loop_mid_scan_cancels"] = 1
 			if tier == "thorough" {
 				m["loop_scans_observed"] = 2
+				m["loop_mid_scan_cancels"] = 2
 			}
 			return m
 		},
@@ -81,7 +84,7 @@ func run(c *fw.Ctx) {
 	c.Cases("race", c.N(240, 4000), func(i int, r *fw.Rand) { runRace(c, i, r) })
 	c.Cases("cancel", c.N(12, 200), func(i int, r *fw.Rand) { runCancel(c, i, r) })
 	c.Cases("start", c.N(16, 64), func(i int, r *fw.Rand) { runStart(c, i, r) })
-	c.Cases("loop", c.N(0, 2), func(i int, r *fw.Rand) { runLoop(c, i, r) })
+	c.Cases("loop", c.N(2, 8), func(i int, r *fw.Rand) { runLoop(c, i, r) })
 }
 
 // scanOnce runs DoScan under a watchdog.  It returns false when the case must be abandoned.
@@ -1107,7 +1110,10 @@ func runStart(c *fw.Ctx, idx int, r *fw.Rand) {
 // loop (thorough): the run loop performs its first scan one minute after Start.
 
 func runLoop(c *fw.Ctx, idx int, r *fw.Rand) {
-	backend := backends[idx%2]
+	// Odd cases cancel while the scan is in progress (parked in its per-mailbox sleep); even
+	// cases cancel between scans.
+	midScan := idx%2 == 1
+	backend := backends[(idx/2)%2]
 	spec := genPop(r, 3, 12, 8, false)
 	st, _, err := newStore(c, backend)
 	if err != nil {
@@ -1136,7 +1142,11 @@ func runLoop(c *fw.Ctx, idx int, r *fw.Rand) {
 	ctx, cancel := context.WithCancel(context.Background())
 	defer cancel()
 	w := &wrapStore{Store: st}
-	rs := storage.NewRetentionScanner(config.Storage{RetentionPeriod: spec.Period, RetentionSleep: time.Millisecond}, w)
+	sleep := time.Millisecond
+	if midScan {
+		sleep = 10 * time.Minute // the scan parks after its first mailbox until it is cancelled
+	}
+	rs := storage.NewRetentionScanner(config.Storage{RetentionPeriod: spec.Period, RetentionSleep: sleep}, w)
 	returned := make(chan struct{})
 	go func() {
 		rs.Start(ctx)
@@ -1158,15 +1168,24 @@ func runLoop(c *fw.Ctx, idx int, r *fw.Rand) {
 		c.Inconclusive("the run loop did not start a scan within the watchdog")
 		return
 	}
-	time.Sleep(2 * time.Second) // lets the scan in progress finish; the verdict below does not depend on it
+	if !midScan {
+		time.Sleep(2 * time.Second) // lets the scan in progress finish; the verdict below does not depend on it
+	}
 	cancel()
 	ok, dump := c.Within(10*time.Second, func() {
 		<-returned
 		rs.Join()
 	})
 	if !ok {
-		c.Hang("loop-cancel", "Start/Join did not return after the context was cancelled between scans", dump)
+		if midScan {
+			c.Hang("loop-cancel-mid-scan", "Start/Join did not return after the context was cancelled while a scan was in progress", dump)
+		} else {
+			c.Hang("loop-cancel", "Start/Join did not return after the context was cancelled between scans", dump)
+		}
 		return
+	}
+	if midScan {
+		c.Count("loop_mid_scan_cancels", 1)
 	}
 	snap, err := sut.Snapshot(st, all, true)
 	if err != nil {
